@@ -39,6 +39,11 @@ reg("C05", ["E1"], E1T,
     "the token is a blind signature on the proof's state commitment, a refused attempt hands back a pending payment that the honest lock message completes for every draw; "
     "RevocationPair decode/generation: all paths, success <=> lock = canonical SHA3(secret||index) with the transcript checked item by item.",
     TB, "DESIGN.md section 4, C05")
+reg("C06", ["E1"], E1T,
+    "Bounded model checking: an honest establish / pay proof checked under its own tuple and under the tuple with one component substituted (channel id, balances +-1, nonce, amount +-1/sign, context byte, key / range-parameter / revocation-parameter atoms): "
+    "the substituted run rejects (witness confirmed by the solver), and 'both accept' is refuted up to the explicit exceptional set (identity commitment / zero challenge); replies replayed across sessions (other channel, other balances, other merchant) are refused; "
+    "a closing message with any one field replaced fails the merchant's close check unless the replacement equals the original.",
+    TB + "; distinct transcripts give distinct challenge residues (random-oracle idealisation)", "DESIGN.md section 4, C06")
 reg("C07", ["E1"], E1T,
     "Bounded model checking of Signature::verify on symbolic (key, message, signature) incl. decode: result <=> (sigma1 != 1 and pairing relation) on every path; "
     "every signature derived by chains of sign / randomize / blind_and_randomize+unblind / blind-sign+unblind (length <= 3) is shown to verify on every feasible path when re-randomisers are non-zero and never when the last one is zero; "
@@ -79,6 +84,14 @@ reg("C19", ["E1"], E1T,
     "Bounded model checking of KeyPair::new, PedersenParameters::new, RangeConstraintParameters::new, merchant::Config::new with every draw free (zero / identity allowed, <= d degenerate draws then retry): "
     "on every returning path all secret scalars are non-zero, all public elements non-identity, G1/G2 halves share logarithms, the library's own decode-time validation and validate() are forced to accept, and signatures verify; plus crafted zero-window streams.",
     TB, "DESIGN.md section 4, C19")
+reg("C14", ["E1"], E1T,
+    "Bounded model checking of reuse / exposure over a two-channel history: every atom of every customer message is compared with every atom the merchant saw earlier (public parameters, replies, earlier messages) and with every secret scalar in the serialised customer state at send time; "
+    "pairs that coincide under the shadow randomness are posed as validity queries (equal for every randomness = violation), differing pairs are confirmed by a solver witness; response scalars answering secrets must carry a mask that is neither zero nor a value in the merchant's view.",
+    TB + "; necessary condition only (exact reuse / direct exposure), not zero-knowledge", "DESIGN.md section 4, C14")
+reg("C20", ["E1"], E1T,
+    "Bounded model checking of store-and-restore at each of the five customer stages (and right after a refused reply): the real Deserialize is forced to accept the stored image, re-encoding is identical, "
+    "original and restored copy judge a symbolic reply by equivalent conditions, emit byte-identical next messages under the same draw variables, reach identical next states and close with identical messages that pass the merchant's close check.",
+    TB, "DESIGN.md section 4, C20")
 reg("C17", ["E2"], E2T,
     "Bounded model checking (Kani/CBMC) of the balance and amount arithmetic over all 64-bit inputs, including every amount decodable from the wire (i64::MIN): "
     "no panic/overflow, success exactly when the i128 reference result is in range, documented error variants, and scalar encoding = field embedding / additive homomorphism (canonical-integer Scalar stand-in).",
